@@ -273,7 +273,8 @@ fn real_checks<T: Real + Elem>(ctx: &mut Ctx, pl: &Planned<T>, salt: usize) {
     for (ei, e) in ALL_ENTRIES.iter().copied().enumerate() {
         let adv = pl.adv[e.scratch_index()];
         for (ci, (sh, cname)) in shape_classes(n, adv, e.two_buffers(), e != Entry::Process, salt + ei).iter().enumerate() {
-            if e == Entry::Process && sh.scratch != adv || (ci + salt + ei) % 3 != 0 {
+            // long transforms (the number-theoretic and large-length sweeps): one shape class in nine
+            if e == Entry::Process && sh.scratch != adv || (ci + salt + ei) % 3 != 0 || (n > 1024 && (ci + salt) % 3 != 0) {
                 continue;
             }
             let xs: Vec<Complex<T>> = gen_input("uniform", sh.data, 0, &mut ctx.rng);
@@ -374,11 +375,32 @@ fn fp_tree(ctx: &mut Ctx, t: &Value, desc: &str, salt: usize) {
                     }
                     let mut ok = r.result.len() == xin.len();
                     if ok {
-                        'outer: for (cin, cout) in xin.chunks(n).zip(r.result.chunks(n)) {
-                            for kk in 0..n {
-                                if fld.dft_at(cin, kk, rts) != cout[kk] {
-                                    ok = false;
-                                    break 'outer;
+                        'outer: for (ci, (cin, cout)) in xin.chunks(n).zip(r.result.chunks(n)).enumerate() {
+                            if n <= 2048 {
+                                for kk in 0..n {
+                                    if fld.dft_at(cin, kk, rts) != cout[kk] {
+                                        ok = false;
+                                        break 'outer;
+                                    }
+                                }
+                            } else {
+                                // long transforms: 24 output bins evaluated directly, and 24 points of the INVERSE transform of the
+                                // output (sum_k X[k] w^(-km) = n x[m]): one wrong output bin changes every such point, so a
+                                // discrepancy anywhere in the output is seen; O(n) field operations per point
+                                let mut lr = crate::util::Rng::new(0xE5AC7 ^ (n as u64) ^ ((ci as u64) << 40));
+                                let nn = Complex { re: Fp((n as u64) % fld.p), im: Fp(0) };
+                                for t in 0..24usize {
+                                    let kk = if t < 3 { [0, 1, n - 1][t] } else { lr.below(n as u64) as usize };
+                                    if fld.dft_at(cin, kk, rts) != cout[kk] {
+                                        ok = false;
+                                        break 'outer;
+                                    }
+                                    let m = if t < 3 { [0, n - 1, n / 2][t] } else { lr.below(n as u64) as usize };
+                                    // w^(-km) = roots[(n - m) * k mod n] = dft_at with frequency index n - m
+                                    if fld.dft_at(cout, (n - m) % n, rts) != nn * cin[m] {
+                                        ok = false;
+                                        break 'outer;
+                                    }
                                 }
                             }
                         }
@@ -411,6 +433,10 @@ pub fn run_c12(ctx: &mut Ctx, scenarios: &str) {
             idx += 1;
             let label = format!("ctor {} {}", elem, desc);
             if !ctx.scenario(i, &label) {
+                continue;
+            }
+            // quick tier: a long tree (> 1024 points) is instantiated exactly (fp) and in ONE floating-point type, alternating
+            if ctx.quick() && tree_len(&t) > 1024 && ((elem == "f64" && i % 2 == 0) || (elem == "f32" && i % 2 == 1)) {
                 continue;
             }
             match elem {
